@@ -8,48 +8,126 @@ import types
 import ginjax.data as gd
 
 
-class L1:
-    def __init__(s, start, n, step):
-        s.start, s.n, s.step = start, n, step
+class LZ:
+    """Lazy integer array of rank <= 2: shape + an index function.  Supports what window-index arithmetic is written with
+    (arange, asarray, [:, None] / [None, :], expand_dims, reshape to a row/column, broadcasting + and * , add.outer, len, shape)."""
+
+    def __init__(s, shape, f):
+        s.shape, s.f = tuple(shape), f
+
+    @property
+    def ndim(s):
+        return len(s.shape)
+
+    # the harness reads results through these
+    @property
+    def c(s):
+        return s.shape[1]
+
+    def __len__(s):
+        return s.shape[0]
+
+    def at(s, i, j):
+        return s.f(i, j) if s.ndim == 2 else s.f(i)
 
     def __getitem__(s, key):
-        if key == (slice(None), None):
-            return L2(s.n, 1, lambda i, j: s.start + i * s.step, (True, False))
-        if key == (None, slice(None)):
-            return L2(1, s.n, lambda i, j: s.start + j * s.step, (False, True))
+        if s.ndim == 1 and key == (slice(None), None):
+            return LZ((s.shape[0], 1), lambda i, j: s.f(i))
+        if s.ndim == 1 and key == (None, slice(None)):
+            return LZ((1, s.shape[0]), lambda i, j: s.f(j))
+        if s.ndim == 1 and key == (None,):
+            return LZ((1, s.shape[0]), lambda i, j: s.f(j))
         raise NotImplementedError(key)
 
-    def __len__(s):
-        return s.n
+    def reshape(s, *shape):
+        shape = shape[0] if len(shape) == 1 and isinstance(shape[0], (tuple, list)) else shape
+        if s.ndim == 1 and tuple(shape) in ((-1, 1), (s.shape[0], 1)):
+            return s[:, None]
+        if s.ndim == 1 and tuple(shape) in ((1, -1), (1, s.shape[0])):
+            return s[None, :]
+        raise NotImplementedError(shape)
 
+    def astype(s, *_a, **_k):
+        return s
 
-class L2:
-    def __init__(s, r, c, f, dep):
-        s.r, s.c, s.f, s.dep = r, c, f, dep
+    def _bin(a, b, op):
+        if not isinstance(b, LZ):
+            if a.ndim == 1:
+                return LZ(a.shape, lambda i: op(a.f(i), b))
+            return LZ(a.shape, lambda i, j: op(a.f(i, j), b))
+        if a.ndim == 1 and b.ndim == 1:
+            return LZ(a.shape, lambda i: op(a.f(i), b.f(i)))
+        A = a if a.ndim == 2 else a[None, :]
+        B = b if b.ndim == 2 else b[None, :]
+        r = A.shape[0] if A.shape[0] != 1 else B.shape[0]
+        c = A.shape[1] if A.shape[1] != 1 else B.shape[1]
+        fa = lambda i, j: A.f(i if A.shape[0] != 1 else 0, j if A.shape[1] != 1 else 0)
+        fb = lambda i, j: B.f(i if B.shape[0] != 1 else 0, j if B.shape[1] != 1 else 0)
+        return LZ((r, c), lambda i, j: op(fa(i, j), fb(i, j)))
 
     def __add__(a, b):
-        r = a.r if a.dep[0] else b.r
-        c = a.c if a.dep[1] else b.c
-        return L2(r, c, lambda i, j: a.f(i, j) + b.f(i, j), (a.dep[0] or b.dep[0], a.dep[1] or b.dep[1]))
+        return a._bin(b, lambda x, y: x + y)
 
-    def __len__(s):
-        return s.r
+    __radd__ = __add__
+
+    def __mul__(a, b):
+        return a._bin(b, lambda x, y: x * y)
+
+    __rmul__ = __mul__
+
+    def __sub__(a, b):
+        return a._bin(b, lambda x, y: x - y)
+
+
+class _Add:
+    def __call__(self, a, b):
+        return Shim.asarray(a) + b
+
+    @staticmethod
+    def outer(a, b):
+        return Shim.asarray(a)[:, None] + Shim.asarray(b)[None, :]
 
 
 class Shim:
+    int32 = int64 = int_ = None
+    add = _Add()
+
     @staticmethod
-    def arange(a, b=None, step=1):
+    def arange(a, b=None, step=1, dtype=None):
         if b is None:
             a, b = 0, a
         n = -((a - b) // step)
         if n < 0:
             n = 0
-        return L1(a, n, step)
+        return LZ((n,), lambda i: a + i * step)
+
+    @staticmethod
+    def asarray(x, dtype=None):
+        if isinstance(x, LZ):
+            return x
+        raise NotImplementedError("asarray of a non-lazy value")
+
+    array = asarray
+
+    @staticmethod
+    def expand_dims(x, axis):
+        if x.ndim == 1 and axis in (1, -1):
+            return x[:, None]
+        if x.ndim == 1 and axis == 0:
+            return x[None, :]
+        raise NotImplementedError(axis)
 
 
-_f = types.FunctionType(gd.time_series_idxs.__code__, {**gd.time_series_idxs.__globals__, "jnp": Shim}, gd.time_series_idxs.__name__,
-                        gd.time_series_idxs.__defaults__, gd.time_series_idxs.__closure__)
-_f.__kwdefaults__ = gd.time_series_idxs.__kwdefaults__
+def _f(*args, **kwargs):
+    """The real time_series_idxs (and whatever private helpers of ginjax.data it calls) with the module's `jnp` / `np`
+    names bound to the lazy shim for the duration of the call."""
+    saved = {n: gd.__dict__[n] for n in ("jnp", "np", "numpy") if n in gd.__dict__}
+    try:
+        for n in saved:
+            gd.__dict__[n] = Shim
+        return gd.time_series_idxs(*args, **kwargs)
+    finally:
+        gd.__dict__.update(saved)
 
 
 def check_idxs(p: int, f: int, dt: int, T: int, w: int, j: int, jf: int) -> bool:
@@ -63,8 +141,8 @@ def check_idxs(p: int, f: int, dt: int, T: int, w: int, j: int, jf: int) -> bool
     a, b = _f(p, f, dt, T)
     W = T - (p + f - 1) * dt
     return (len(a) == W and len(b) == W and a.c == p and b.c == f
-            and a.f(w, j) == w + j * dt and b.f(w, jf) == w + (p + jf) * dt
-            and b.f(w, jf) > a.f(w, p - 1) and b.f(w, jf) < T and a.f(w, j) >= 0)
+            and a.at(w, j) == w + j * dt and b.at(w, jf) == w + (p + jf) * dt
+            and b.at(w, jf) > a.at(w, p - 1) and b.at(w, jf) < T and a.at(w, j) >= 0)
 
 
 def canary_idxs(p: int, f: int, dt: int, T: int, w: int, jf: int) -> bool:
@@ -76,7 +154,7 @@ def canary_idxs(p: int, f: int, dt: int, T: int, w: int, jf: int) -> bool:
     post: _
     """
     a, b = _f(p, f, dt, T)
-    return b.f(w, jf) == w + p + jf * dt  # wrong unless dt == 1: must be refuted
+    return b.at(w, jf) == w + p + jf * dt  # wrong unless dt == 1: must be refuted
 
 
 def concrete_check(p, f, dt, T):
@@ -91,7 +169,36 @@ def concrete_check(p, f, dt, T):
             ok = ok and a[w, j] == w + j * dt
         for j in range(f):
             ok = ok and b[w, j] == w + (p + j) * dt and b[w, j] > a[w, p - 1] and b[w, j] < T
-    sa, sb = _f(p, f, dt, T)
-    shim_ok = len(sa) == a.shape[0] and sa.c == a.shape[1] and all(sa.f(w, j) == a[w, j] for w in range(W) for j in range(p)) \
-        and len(sb) == b.shape[0] and sb.c == b.shape[1] and all(sb.f(w, j) == b[w, j] for w in range(W) for j in range(f))
+    try:
+        sa, sb = _f(p, f, dt, T)
+    except Exception:  # noqa: BLE001 - the current source uses something the lazy shim does not model
+        return bool(ok), False
+    shim_ok = len(sa) == a.shape[0] and sa.c == a.shape[1] and all(sa.at(w, j) == a[w, j] for w in range(W) for j in range(p)) \
+        and len(sb) == b.shape[0] and sb.c == b.shape[1] and all(sb.at(w, j) == b[w, j] for w in range(W) for j in range(f))
     return bool(ok), bool(shim_ok)
+
+
+def enumerate_spec(pmax=6, fmax=6, dtmax=4, Tmax=48):
+    """Fallback when the lazy shim does not apply to the current source: the same bounded domain, every tuple, real function.
+    -> (number of tuples, first failing tuple or None)"""
+    import numpy as np
+    n = 0
+    for p in range(1, pmax + 1):
+        for f in range(1, fmax + 1):
+            for dt in range(1, dtmax + 1):
+                for T in range(1, Tmax + 1):
+                    W = T - (p + f - 1) * dt
+                    if W < 1:
+                        continue
+                    n += 1
+                    try:
+                        a, b = gd.time_series_idxs(p, f, dt, T)
+                        a, b = np.asarray(a), np.asarray(b)
+                        ok = a.shape == (W, p) and b.shape == (W, f) \
+                            and np.array_equal(a, np.arange(W)[:, None] + dt * np.arange(p)[None, :]) \
+                            and np.array_equal(b, np.arange(W)[:, None] + dt * (p + np.arange(f))[None, :])
+                    except Exception:  # noqa: BLE001
+                        ok = False
+                    if not ok:
+                        return n, (p, f, dt, T)
+    return n, None
